@@ -129,6 +129,32 @@ def check_restricted(inp):
     d = equivalent(t, rt, sc)
     if d:
         return Failure('restricted', inp, 'an equivalent formula', {'result': list(rt), 'differs_on': d})
+    if t[0] not in fm.LEAF and fm.size(t) % 3 != 2:
+        # the formula object is EDITED IN PLACE through the documented wrap_subformulas ("replaces the
+        # subformulas of the current object"): the operands of the root (or of its first operand) are
+        # replaced by themselves with p and q swapped.  The rewriting of the edited object must be
+        # the rewriting of an equal formula built afresh.
+        swap = {'p': 'q', 'q': 'p'}
+        deep = fm.size(t) % 3 == 1 and t[1][0] not in fm.LEAF
+        try:
+            node = obj.subformula(0) if deep else obj
+            nt_ = t[1] if deep else t
+            node.wrap_subformulas([fm.to_lib(fm.rename_atoms(c, swap), L) for c in nt_[1:]], L.Formula)
+            t2 = (t[0], (nt_[0],) + tuple(fm.rename_atoms(c, swap) for c in nt_[1:])) + t[2:] if deep else \
+                (t[0],) + tuple(fm.rename_atoms(c, swap) for c in t[1:])
+            edited_ok = fm.structure(obj) == t2
+        except Exception:
+            edited_ok = False                # the edit itself is not this property's business
+        if edited_ok:
+            try:
+                rt3 = fm.structure(obj.get_equivalent_restricted_formula())
+                want = fm.structure(fm.to_lib(t2, L).get_equivalent_restricted_formula())
+            except Exception as e:
+                return Failure('restricted', inp, 'a formula', 'raised %s: %s after the formula was edited in place' % (type(e).__name__, str(e)[:150]))
+            if rt3 != want:
+                return Failure('restricted', inp, list(want), list(rt3),
+                               'after wrap_subformulas() replaced %s operands (p and q swapped) the object is %s, but its rewriting is not that of an equal formula built afresh'
+                               % ('the first operand\'s' if deep else 'the root\'s', fm.to_text(t2)))
     return None
 
 
